@@ -926,6 +926,89 @@ func (c *hCtx) checkRankFn() {
 	}
 }
 
+// C15: entry points agree bit-identically (bytes vs bits, runner defaults, registry order)
+func (c *hCtx) checkEntryPoints() {
+	name := "entry-points"
+	sizes := []int{1121, 1200, 2500}
+	if c.req.Budget == "thorough" {
+		sizes = append(sizes, 12500, 125000)
+	}
+	eq := func(what string, in interface{}, a, b []float64) bool {
+		c.resp.Cases[name]++
+		for i := range a {
+			if a[i] != b[i] && !(math.IsNaN(a[i]) && math.IsNaN(b[i])) {
+				c.report(name, in, fmt.Sprintf("%s: %v", what, a), fmt.Sprintf("bit-identical to %v", b))
+				return false
+			}
+		}
+		return true
+	}
+	for _, nb := range sizes {
+		for rep := 0; rep < 3; rep++ {
+			data := make([]byte, nb)
+			c.rng.Read(data)
+			if rep == 1 {
+				for i := range data {
+					data[i] &= 0xF3
+				}
+			}
+			bits := B2bitArr(data)
+			in := map[string]interface{}{"bytes": nb, "rep": rep, "seed": c.req.Seed}
+			p2 := func(p, q float64) []float64 { return []float64{p, q} }
+			ok := true
+			ok = ok && eq("MonoBitFrequencyTestBytes", in, p2(MonoBitFrequencyTestBytes(data)), p2(MonoBitFrequencyTest(bits)))
+			ok = ok && eq("PokerTestBytes m=4", in, p2(PokerTestBytes(data, 4)), p2(PokerProto(bits, 4)))
+			ok = ok && eq("PokerTestBytes m=8", in, p2(PokerTestBytes(data, 8)), p2(PokerProto(bits, 8)))
+			ok = ok && eq("PokerTestBytes m=2", in, p2(PokerTestBytes(data, 2)), p2(PokerProto(bits, 2)))
+			ok = ok && eq("FrequencyWithinBlockTestBytes", in, p2(FrequencyWithinBlockTestBytes(data, 100)), p2(FrequencyWithinBlockProto(bits, 100)))
+			ok = ok && eq("RunsTestBytes", in, p2(RunsTestBytes(data)), p2(RunsTest(bits)))
+			ok = ok && eq("RunsDistributionTestBytes", in, p2(RunsDistributionTestBytes(data)), p2(RunsDistributionTest(bits)))
+			ok = ok && eq("LongestRun bytes(false)", in, p2(LongestRunOfOnesInABlockTestBytes(data, false)), p2(LongestRunOfOnesInABlockProto(bits, false)))
+			ok = ok && eq("BinaryDerivativeTestBytes", in, p2(BinaryDerivativeTestBytes(data, 3)), p2(BinaryDerivativeProto(bits, 3)))
+			ok = ok && eq("AutocorrelationTestBytes", in, p2(AutocorrelationTestBytes(data, 8)), p2(AutocorrelationProto(bits, 8)))
+			ok = ok && eq("CumulativeTestBytes(false)", in, p2(CumulativeTestBytes(data, false)), p2(CumulativeTest(bits, false)))
+			ok = ok && eq("ApproximateEntropyTestBytes", in, p2(ApproximateEntropyTestBytes(data, 2)), p2(ApproximateEntropyProto(bits, 2)))
+			ok = ok && eq("MatrixRankTestBytes", in, p2(MatrixRankTestBytes(data, 32, 32)), p2(MatrixRankProto(bits, 32, 32)))
+			ok = ok && eq("LinearComplexityTestBytes", in, p2(LinearComplexityTestBytes(data, 1000)), p2(LinearComplexityProto(bits, 1000)))
+			ok = ok && eq("MaurerUniversalTestBytes", in, p2(MaurerUniversalTestBytes(data)), p2(MaurerUniversalTest(bits)))
+			ok = ok && eq("DiscreteFourierTransformTestBytes", in, p2(DiscreteFourierTransformTestBytes(data)), p2(DiscreteFourierTransformTest(bits)))
+			if !ok {
+				return
+			}
+			// registry runners use the documented defaults, in the standard's order
+			o1, o2, oq1, oq2 := OverlappingTemplateMatchingProto(bits, 5)
+			want := [][]float64{
+				p2(MonoBitFrequencyTest(bits)), p2(FrequencyWithinBlockTest(bits)), p2(PokerProto(bits, 8)), {o1, oq1},
+				p2(RunsTest(bits)), p2(RunsDistributionTest(bits)), p2(LongestRunOfOnesInABlockProto(bits, true)), p2(BinaryDerivativeProto(bits, 7)),
+				p2(AutocorrelationProto(bits, 16)), p2(MatrixRankProto(bits, 32, 32)), p2(CumulativeTest(bits, true)), p2(ApproximateEntropyProto(bits, 5)),
+				p2(LinearComplexityProto(bits, 500)), p2(MaurerUniversalTest(bits)), p2(DiscreteFourierTransformTest(bits)),
+			}
+			if len(TestMethodArr) != 15 {
+				c.report(name, in, fmt.Sprint(len(TestMethodArr)), "15 registry entries")
+				return
+			}
+			for k, item := range TestMethodArr {
+				r := item.Runner(data)
+				if !eq(fmt.Sprintf("registry item %d (%s)", k+1, item.Name), in, []float64{r.P, r.Q}, want[k]) {
+					return
+				}
+				wantPass := r.P >= 0.01
+				if k == 3 {
+					wantPass = math.Min(o1, o2) >= 0.01
+					if r.P2 != o2 || r.Q2 != oq2 {
+						c.report(name, in, fmt.Sprint(r.P2, r.Q2), fmt.Sprint(o2, oq2))
+						return
+					}
+				}
+				if r.Pass != wantPass {
+					c.report(name, in, fmt.Sprintf("item %d Pass=%v", k+1, r.Pass), fmt.Sprint(wantPass))
+					return
+				}
+			}
+		}
+	}
+}
+
 func TestVerifHarness(t *testing.T) {
 	reqPath := os.Getenv("VERIF_HARNESS_REQ")
 	outPath := os.Getenv("VERIF_HARNESS_OUT")
@@ -951,6 +1034,8 @@ func TestVerifHarness(t *testing.T) {
 			c.checkLinearComplexityFn()
 		case "rank-fn":
 			c.checkRankFn()
+		case "entry-points":
+			c.checkEntryPoints()
 		default:
 			sc, ok := all[name]
 			if !ok {
